@@ -19,6 +19,10 @@ Families
            field; two relative-heading requirements on A with different targets
   vis      `visible`, `visible from`, `requireVisible`, `not visible`, visibleDistance
            alphabet (incl. < 1), view cones, a second object as observer
+  vism     2-3 objects observed from ONE viewpoint (all `requireVisible`, `visible`, `visible from`
+           the same fixed / random observer, mixed) with clearly different radius + offset, all
+           creation orders, optionally a non-visible object in between
+  contm    2-3 objects of different inradius / offset in the same container, all orders
   mode2d   the same constructs in 2D compatibility mode
 """
 
@@ -724,6 +728,130 @@ def vis_programs():
 
 
 # ------------------------------------------------------------------------------------------
+# vism / contm: several pruned objects per program (state carried from one object to the next)
+# ------------------------------------------------------------------------------------------
+# item -> (placement with {reg}, size); radius + offset length: small 0.35, big 4.4, offs 3.4
+MULTI_ITEMS = {
+    "small": ("in {reg}", "with width 0.4, with length 0.4, with height 0.4"),
+    "big": ("in {reg}", "with width 6, with length 6, with height 2"),
+    "offs": ("at (new Point in {reg}) offset by (2.5, 0)", ""),
+    "plain": ("in {reg}", ""),  # an object that is NOT required to be visible
+}
+FREE = "with allowCollisions True, with occluding False"
+VISM_FORMS = {
+    # id -> (viewer lines, specifier of the observed objects)
+    "requireVisible": (["ego = new Object at (0, 0, 0), with visibleDistance 1, " + RAYS + ", " + FREE], "with requireVisible True"),
+    "visible": (["ego = new Object at (0, 0, 0), with visibleDistance 1, " + RAYS + ", " + FREE], "visible"),
+    "visible-from-obs": (
+        ["ego = new Object at (30, 30, 0), " + FREE, "obs = new Object at (0, 0, 0), with visibleDistance 1, " + RAYS + ", " + FREE],
+        "visible from obs",
+    ),
+    "mixed": (["ego = new Object at (0, 0, 0), with visibleDistance 1, " + RAYS + ", " + FREE], None),  # alternates the two ego forms
+    "visible-from-random-obs": (
+        [
+            "ego = new Object at (30, 30, 0), " + FREE,
+            "Robs = PolygonalRegion([-0.5@-0.5, 0.5@-0.5, 0.5@0.5, -0.5@0.5])",
+            "obs = new Object in Robs, with visibleDistance 1, " + RAYS + ", " + FREE,
+        ],
+        "visible from obs",
+    ),
+}
+
+
+def vism(form, order, quick=False):
+    """Objects `order` (names of MULTI_ITEMS) observed from one viewpoint, created in that order."""
+    viewer, spec = VISM_FORMS[form]
+    lines = ["R = PolygonalRegion([-6@-6, 6@-6, 6@6, -6@6])"] + list(viewer)
+    k = 0
+    for n, item in enumerate(order):
+        place, size = MULTI_ITEMS[item]
+        if item == "plain":
+            sp = ""
+        elif spec is None:
+            sp = ("with requireVisible True", "visible")[k % 2]
+            k += 1
+        else:
+            sp = spec
+        lines.append(f"o{n} = new Object " + _join(place.format(reg="R"), sp, size, FREE))
+    return {
+        "id": f"vism:{form}/" + "-".join(order),
+        "family": "vism",
+        "tag": f"vism[{form},order={'-'.join(order)}]",
+        "text": "\n".join(lines) + "\n",
+        "mode2D": False,
+        "dim": 2,
+        "quick": quick,
+        "search": "sticky",
+    }
+
+
+def contm(container, order, quick=False):
+    """Objects of different inradius / offset in the same container, created in that order."""
+    if container == "poly":
+        lines = ["workspace = Workspace(PolygonalRegion([0@0, 12@0, 12@10, 0@10]))"]
+    elif container == "contained":
+        lines = ["workspace = Workspace(PolygonalRegion([-20@-20, 30@-20, 30@30, -20@30]))", "C = PolygonalRegion([0@0, 12@0, 12@10, 0@10])"]
+    else:  # box volume
+        lines = ["workspace = Workspace(BoxRegion(dimensions=(12, 10, 6), position=(6, 5, 1)))"]
+    lines.append("R = PolygonalRegion([-1@-1, 13@-1, 13@11, -1@11])")
+    items = {
+        "small": ("in R", "with width 0.4, with length 0.4, with height 0.4"),
+        "big": ("in R", "with width 3, with length 3"),
+        "offs": ("at (new Point in R) offset by (3, 0)", ""),
+        "plain": ("at (new Point in R) offset by (Range(-0.2, 0.2), 0)", ""),
+    }
+    for n, item in enumerate(order):
+        place, size = items[item]
+        lines.append(f"o{n} = new Object " + _join(place, size, "with regionContainedIn C" if container == "contained" else "", "with allowCollisions True"))
+    lines.append("ego = o0")
+    return {
+        "id": f"contm:{container}/" + "-".join(order),
+        "family": "contm",
+        "tag": f"contm[{container},order={'-'.join(order)}]",
+        "text": "\n".join(lines) + "\n",
+        "mode2D": False,
+        "dim": 2,
+        "quick": quick,
+        "search": "sticky",
+    }
+
+
+def multi_programs():
+    out = {}
+
+    def add(p):
+        if p["id"] in out:
+            out[p["id"]]["quick"] = out[p["id"]]["quick"] or p["quick"]
+        else:
+            out[p["id"]] = p
+
+    # quick: both orders of (small, big), an offset object after a small one, a non-visible object
+    # in between, every form once
+    add(vism("requireVisible", ("small", "big"), quick=True))
+    add(vism("requireVisible", ("big", "small"), quick=True))
+    add(vism("visible-from-obs", ("small", "offs"), quick=True))
+    add(vism("visible", ("small", "plain", "big"), quick=True))
+    add(vism("mixed", ("offs", "small", "big"), quick=True))
+    add(contm("poly", ("small", "big"), quick=True))
+    add(contm("poly", ("big", "small"), quick=True))
+    add(contm("contained", ("offs", "small", "big"), quick=True))
+    add(contm("box", ("small", "plain", "big"), quick=True))
+    # thorough: all orders of two and of three items, every form / container
+    names = ("small", "big", "offs")
+    orders = list(itertools.permutations(names, 2)) + list(itertools.permutations(names, 3))
+    orders += [("small", "plain", "big"), ("big", "plain", "small"), ("small", "plain", "offs"), ("offs", "plain", "small")]
+    for form in VISM_FORMS:
+        for o in orders:
+            if form == "visible-from-random-obs" and len(o) == 3:
+                continue
+            add(vism(form, o))
+    for cont in ("poly", "contained", "box"):
+        for o in orders:
+            add(contm(cont, o))
+    return list(out.values())
+
+
+# ------------------------------------------------------------------------------------------
 # mode2d
 # ------------------------------------------------------------------------------------------
 def mode2d_programs():
@@ -752,7 +880,7 @@ def mode2d_programs():
 
 
 def all_programs():
-    progs = cont2d_programs() + cont3d_programs() + rh_programs() + rh3_programs() + vis_programs() + mode2d_programs()
+    progs = cont2d_programs() + cont3d_programs() + rh_programs() + rh3_programs() + vis_programs() + multi_programs() + mode2d_programs()
     ids = [p["id"] for p in progs]
     if len(set(ids)) != len(ids):
         raise RuntimeError("duplicate program ids")
